@@ -248,10 +248,10 @@ META = {
    level_note='About Model/Loader.v walk_verify/verify_dir; the lazy-all() defect D1 was repaired in /repo (fix commit) and the model has no laziness.'),
  'C16': dict(engine='coq+tree', design_ref='DESIGN.md section 5 C16',
    technique='Coq termination proof of the walk over arbitrary cyclic inode graphs (pigeonhole on recorded directory identities) + enumeration of small symlink graphs on a real filesystem under a watchdog',
-   level_text='Proved in Coq for every finite inode graph (any directory symlinks, any cycles, any names without slashes): the verification walk never depends on its fuel once it is '
+   level_text='Proved in Coq for every finite inode graph (any directory symlinks, any cycles, any names without slashes): each of the three walks - verification, the scan for unregistered Manifests, update / create - never depends on its fuel once it is '
               'at least |directory identities|+2 - it terminates by loop detection or by exhausting the tree (C16_terminates, including the start-directory key quirk); a directory whose '
               'identity is recorded for an ancestor raises the symlink-loop error and a directory/file on another device raises the cross-device error, whatever the handler answers. '
-              'Which links lead back to an ancestor, "unless under an IGNOREd path", and the update/unregistered walks are compared on enumerated graphs (with an independent cycle oracle).',
+              'Which links lead back to an ancestor and "unless under an IGNOREd path" are compared on enumerated graphs (with an independent cycle oracle), for all three walks.',
    level_note='About Model/Loader.v walk_verify; termination of the real os.walk is covered by a 20 s watchdog per run; the kernel identity law (st_dev, st_ino) is assumed.'),
  'C03': dict(engine='coq+tree', design_ref='DESIGN.md section 5 C03',
    technique='Coq theorems about the entry refresh and the save step + differential update/save/re-verify runs with an independent exactness oracle',
